@@ -1,4 +1,4 @@
-import Cjet.Lemmas.DaemonC03Final
+import Cjet.Lemmas.DaemonC03Close
 /-!
 # C03 — routed set/call: delivered once to the owner, answered once to the caller
 
@@ -220,5 +220,167 @@ example : ∃ (cfg : Config) (s : State) (c : Nat) (o : Oracle) (members : List 
       by with_unfolding_all rfl⟩
   · intro _; with_unfolding_all rfl
   · with_unfolding_all rfl
+
+/-! ## 3. Third-party independence -/
+
+/-- `entry_stable`: a routing entry `r` stored in its owner's table is still stored there, with
+    the same fields, after EVERY operation that is not one of its four resolvers (`Resolves`):
+    a message of its owner containing a routing response with its id, a message of its owner or
+    requester that gets that peer dropped, the disconnect of its owner or requester, the expiry of
+    its own timer.  In particular connects, disconnects, messages (requests, responses with other or
+    forged ids, their own set/call traffic to the same owner, failing sends, refused insertions) and
+    timers of all other peers leave it alone. -/
+theorem entry_stable (cfg : Config) (s : State) (op : Op) (r : Route)
+    (hw : RoutesWf s) (hr : RidsWf s) (hok : OpOk op) (hb : s.uuid + opWeight op < 4294967296)
+    (hin : Stored s r) (hres : ¬ Resolves cfg s r op) : Stored (step cfg s op).1 r :=
+  stored_step cfg s op r hw hr hok hb hin hres
+
+/-- a bystander (peer 3, not connected before) connects while `exRoute` is in flight -/
+example : RoutesWf exS1 ∧ RidsWf exS1 ∧ OpOk (.connect 3 false true (k "0x3")) ∧
+    exS1.uuid + opWeight (.connect 3 false true (k "0x3")) < 4294967296 ∧ Stored exS1 exRoute ∧
+    ¬ Resolves exCfg exS1 exRoute (.connect 3 false true (k "0x3")) := by
+  refine ⟨?_, exS1_rids, by decide +kernel, by decide +kernel, ⟨_, by with_unfolding_all rfl, .head _⟩, fun h => h⟩
+  rw [← exS1_reachable]
+  exact routesWf_run _ _ _ (routesWf_init [])
+
+/-- the contrapositive: an operation after which the entry is gone is one of its resolvers -/
+theorem resolution_cases (cfg : Config) (s : State) (op : Op) (r : Route)
+    (hw : RoutesWf s) (hr : RidsWf s) (hok : OpOk op) (hb : s.uuid + opWeight op < 4294967296)
+    (hin : Stored s r) (hgone : ¬ Stored (step cfg s op).1 r) : Resolves cfg s r op :=
+  Classical.byContradiction fun h => hgone (stored_step cfg s op r hw hr hok hb hin h)
+
+/-! ## 4. The final answer -/
+
+/-- an answerable origin id (string or number) gets `{id: originId, result|error: payload}` with
+    the owner's payload unchanged; no origin id, no answer -/
+theorem reply_answer_shape (r : Route) (payload : Json) (typ : String) :
+    (∀ oid, r.originId = some oid → Answerable (some oid) →
+      replyAnswer r payload typ = some (.obj [(k "id", oid), (k typ, payload)])) ∧
+    (r.originId = none → replyAnswer r payload typ = none) := by
+  constructor
+  · intro oid h ha
+    simp only [replyAnswer, h, Option.bind_some]
+    exact resultResponse_of_answerable ha payload typ
+  · intro h; simp [replyAnswer, h]
+
+theorem timeout_answer_shape (r : Route) :
+    (∀ oid, r.originId = some oid → Answerable (some oid) →
+      timeoutAnswer r = some (.obj [(k "id", oid),
+        (k "error", errorObject INTERNAL_ERROR "reason" (k "timeout for routed request"))])) ∧
+    (r.originId = none → timeoutAnswer r = none) := by
+  constructor
+  · intro oid h ha
+    simp only [timeoutAnswer, h, Option.bind_some]
+    exact errorResponse_of_answerable ha _ _ _
+  · intro h; simp [timeoutAnswer, h]
+
+theorem shutdown_answer_shape (r : Route) :
+    (∀ oid, r.originId = some oid → Answerable (some oid) →
+      shutdownAnswer r = some (.obj [(k "id", oid),
+        (k "error", errorObject INTERNAL_ERROR "reason" (k "peer shuts down"))])) ∧
+    (r.originId = none → shutdownAnswer r = none) := by
+  constructor
+  · intro oid h ha
+    simp only [shutdownAnswer, h, Option.bind_some]
+    exact errorResponse_of_answerable ha _ _ _
+  · intro h; simp [shutdownAnswer, h]
+
+/-- `final_answer`, reply: the step of a message consisting of one routing response (result, or
+    error if there is no result member) of `r`'s owner with `r`'s id removes the entry, destroys
+    its timer and sends exactly one message: `replyAnswer` to the requester — none if the caller had
+    no id.  Nothing else changes, nothing else is emitted. -/
+theorem final_answer_reply (cfg : Config) (s : State) (orc : Oracle) (members : List (Bytes × Json))
+    (payload : Json) (typ : String) (r : Route) (hr : RidsWf s) (hin : Stored s r)
+    (hresp : IsResponse (.obj members) payload typ)
+    (hid : (Json.obj members).getItem (k "id") = some (.str r.rid)) :
+    step cfg s (.message r.owner (some (.obj members)) orc) =
+      ({ s with peers := removeRoute s.peers r.owner r.rid },
+       .timerDestroy r.timer :: answerSends r.requester (replyAnswer r payload typ) (orc.sends.headD true)) ∧
+    ¬ Stored { s with peers := removeRoute s.peers r.owner r.rid } r :=
+  ⟨step_reply cfg s orc members payload typ r hr hin hresp hid, not_stored_after_remove s r⟩
+
+def exReplyMembers : List (Bytes × Json) := [(k "id", .str exRoute.rid), (k "result", .bool true)]
+
+example : RidsWf exS1 ∧ Stored exS1 exRoute ∧ IsResponse (.obj exReplyMembers) (.bool true) "result" ∧
+    (Json.obj exReplyMembers).getItem (k "id") = some (.str exRoute.rid) :=
+  ⟨exS1_rids, ⟨_, by with_unfolding_all rfl, .head _⟩,
+   ⟨by with_unfolding_all rfl, Or.inl ⟨rfl, by with_unfolding_all rfl⟩⟩, by with_unfolding_all rfl⟩
+
+/-- `final_answer`, timeout: the expiry of `r`'s timer removes the entry, sends the INTERNAL_ERROR
+    "timeout for routed request" response to the requester (none if the caller had no id) and
+    destroys the timer.  Nothing else. -/
+theorem final_answer_timeout (cfg : Config) (s : State) (orc : Oracle) (r : Route)
+    (hw : RoutesWf s) (hin : Stored s r) :
+    step cfg s (.timerFire r.timer orc) =
+      ({ s with peers := removeRoute s.peers r.owner r.rid },
+       answerSends r.requester (timeoutAnswer r) (orc.sends.headD true) ++ [.timerDestroy r.timer]) ∧
+    ¬ Stored { s with peers := removeRoute s.peers r.owner r.rid } r :=
+  ⟨step_timeout cfg s orc r hw hin, not_stored_after_remove s r⟩
+
+/-- `final_answer`, owner shutdown: when `r`'s owner disconnects, the outputs of the step contain
+    the destruction of `r`'s timer immediately followed by the INTERNAL_ERROR "peer shuts down"
+    response to the requester (none if the caller had no id, or if the caller is the owner
+    itself); the timer of `r` is destroyed nowhere else in the step, and the owner is gone
+    afterwards (so is its table). -/
+theorem final_answer_shutdown (cfg : Config) (s : State) (orc : Oracle) (r : Route) (p : Peer)
+    (hw : RoutesWf s) (hp : findPeer s.peers r.owner = some p) (hr : r ∈ p.routes)
+    (hne : r.requester ≠ r.owner) :
+    ∃ pre post ok,
+      (step cfg s (.disconnect r.owner orc)).2 =
+        pre ++ .timerDestroy r.timer :: answerSends r.requester (shutdownAnswer r) ok ++ post ∧
+      r.timer ∉ (pre ++ post).filterMap destroyedOf := by
+  obtain ⟨pre, post, ok, hout, hnd⟩ := closePeer_shutdown (mkCtx s orc) r.owner p r hw hp hr hne
+  refine ⟨pre.reverse, post.reverse, ok, ?_, ?_⟩
+  · rw [step_disconnect]
+    have : (findPeer s.peers r.owner).isNone = false := by rw [hp]; rfl
+    simp only [this, Bool.false_eq_true, ↓reduceIte]
+    rw [hout]
+    simp only [mkCtx_out, List.append_nil, List.reverse_append, List.reverse_cons, List.append_assoc,
+      List.singleton_append]
+    congr 1
+    cases shutdownAnswer r <;> rfl
+  · intro h
+    apply hnd
+    rw [List.filterMap_append, List.mem_append] at h ⊢
+    rw [List.filterMap_reverse, List.filterMap_reverse, List.mem_reverse, List.mem_reverse] at h
+    exact h
+
+example : RoutesWf exS1 ∧ findPeer exS1.peers exRoute.owner = some { exP1 with routes := [exRoute] } ∧
+    exRoute ∈ ({ exP1 with routes := [exRoute] } : Peer).routes ∧ exRoute.requester ≠ exRoute.owner := by
+  refine ⟨?_, by with_unfolding_all rfl, .head _, by decide⟩
+  rw [← exS1_reachable]
+  exact routesWf_run _ _ _ (routesWf_init [])
+
+/-- `late_reply_ignored`: a routing response whose id matches no entry of the REPLIER'S OWN table
+    — a late reply (after the timeout answer), a duplicated reply, a forged id, the id of an entry
+    in another peer's table — changes nothing and emits nothing. -/
+theorem late_reply_ignored (cfg : Config) (s : State) (c : Nat) (orc : Oracle) (members : List (Bytes × Json))
+    (payload : Json) (typ : String) (rid : Bytes) (p : Peer) (hp : findPeer s.peers c = some p)
+    (hresp : IsResponse (.obj members) payload typ)
+    (hid : (Json.obj members).getItem (k "id") = some (.str rid))
+    (hmiss : ∀ r ∈ p.routes, r.rid ≠ rid) :
+    step cfg s (.message c (some (.obj members)) orc) = (s, []) :=
+  step_reply_miss cfg s c orc members payload typ rid p hp hresp hid hmiss
+
+/-- peer 2 (whose table is empty) sends a response carrying the id of the entry in peer 1's table -/
+example : findPeer exS1.peers 2 = some exP2 ∧ IsResponse (.obj exReplyMembers) (.bool true) "result" ∧
+    (Json.obj exReplyMembers).getItem (k "id") = some (.str exRoute.rid) ∧
+    (∀ r ∈ exP2.routes, r.rid ≠ exRoute.rid) :=
+  ⟨by with_unfolding_all rfl, ⟨by with_unfolding_all rfl, Or.inl ⟨rfl, by with_unfolding_all rfl⟩⟩,
+   by with_unfolding_all rfl, fun _ h => nomatch h⟩
+
+/-- after the reply (or the timeout) the owner's table holds no entry with that id, so a second
+    reply with the same id falls under `late_reply_ignored` -/
+theorem duplicate_reply_ignored (s : State) (r : Route) (p' : Peer)
+    (hp' : findPeer (removeRoute s.peers r.owner r.rid) r.owner = some p') :
+    ∀ r' ∈ p'.routes, r'.rid ≠ r.rid :=
+  no_rid_after_removeRoute s.peers r.owner r.rid p' hp'
+
+/-- the expiry of a timer that no stored entry carries (its entry was answered before) does nothing -/
+theorem late_expiry_ignored (cfg : Config) (s : State) (orc : Oracle) (t : Nat)
+    (h : ∀ r ∈ s.peers.flatMap (·.routes), r.timer ≠ t) : step cfg s (.timerFire t orc) = (s, []) :=
+  step_timeout_miss cfg s orc t h
+
+example : ∀ r ∈ exS.peers.flatMap (·.routes), r.timer ≠ 0 := fun _ h => nomatch h
 
 end Cjet.Props.C03
